@@ -10,6 +10,7 @@ mod c18;
 mod c19large;
 mod c20;
 mod ktypes;
+mod oracle_selftest;
 
 use simcore::driver::{self, Harness, Opts};
 
@@ -36,6 +37,10 @@ fn main() {
         let seed: u64 = args.get(2).and_then(|s| s.parse().ok()).unwrap_or(1);
         println!("{:016x}", c16::hashn_family_digest(seed, 400));
         return;
+    }
+    if check == "oracle-selftest" {
+        let seed: u64 = args.get(2).and_then(|s| s.parse().ok()).unwrap_or(1);
+        std::process::exit(oracle_selftest::run(seed));
     }
     if check == "c20-file-child" {
         std::process::exit(c20::file_child(&args[2]));
